@@ -53,6 +53,79 @@ def globalStep (xs ys : List Rat) (c : Circuit) (i : Nat) : Circuit :=
 def exportGlobal (c : Circuit) (xs ys : List Rat) : Circuit :=
   (List.range c.cells.length).foldl (globalStep xs ys) c
 
+/-! ### `blendPlacement`, `GlobalPlacer::exportPlacement(Circuit &) const`, `GlobalPlacer::callback`
+
+```
+std::vector<float> blendPlacement(v1, v2, float blending) {
+  if (blending == 0.0f) return v1;
+  if (blending == 1.0f) return v2;
+  for (i < v1.size()) ret.push_back((1.0f - blending) * v1[i] + blending * v2[i]);
+}
+void GlobalPlacer::exportPlacement(Circuit &circuit) const {
+  float w = params_.global.exportBlending;
+  exportPlacement(circuit, blendPlacement(xPlacementLB_, xPlacementUB_, w), blendPlacement(yPlacementLB_, yPlacementUB_, w));
+}
+void GlobalPlacer::callback(PlacementStep step, xplace, yplace) {
+  if (!callback_.has_value()) return;
+  exportPlacement(circuit_, xplace, yplace);
+  callback_.value()(step);
+}
+```
+The blend is `float` arithmetic: x86-64/SSE evaluates it in binary32 (FLT_EVAL_METHOD = 0, no FMA
+contraction in the build), so each of the two products, the difference `1.0f - blending` and the sum
+is rounded once to nearest-even.  `f32` is that rounding on exact rationals (finite range: the placer
+throws on non-finite or > 2^28 coordinates before any export, `checkFinitePlacement`). -/
+
+/-- `2^e` for an integer exponent -/
+def pow2 (e : Int) : Rat :=
+  if 0 ≤ e then ((2 ^ e.toNat : Nat) : Rat) else 1 / ((2 ^ (-e).toNat : Nat) : Rat)
+
+/-- nearest integer, ties to even (argument ≥ 0) -/
+def roundHalfEven (r : Rat) : Int :=
+  if r - (r.floor : Rat) < 1 / 2 then r.floor
+  else if (1 : Rat) / 2 < r - (r.floor : Rat) then r.floor + 1
+  else if r.floor % 2 = 0 then r.floor else r.floor + 1
+
+/-- exponent of the unit in the last place of the binary32 nearest to `a > 0`:
+`2^(e+23) ≤ a < 2^(e+24)`, clamped at the subnormal exponent −149 -/
+def f32Exp (a : Rat) : Int :=
+  max (if a < pow2 ((Nat.log2 a.num.natAbs : Int) - (Nat.log2 a.den : Int))
+       then (Nat.log2 a.num.natAbs : Int) - (Nat.log2 a.den : Int) - 24
+       else (Nat.log2 a.num.natAbs : Int) - (Nat.log2 a.den : Int) - 23) (-149)
+
+/-- IEEE-754 binary32 round-to-nearest-even of an exact rational (finite range) -/
+def f32 (q : Rat) : Rat :=
+  if q = 0 then 0
+  else if q < 0 then -((roundHalfEven ((-q) / pow2 (f32Exp (-q))) : Rat) * pow2 (f32Exp (-q)))
+  else (roundHalfEven (q / pow2 (f32Exp q)) : Rat) * pow2 (f32Exp q)
+
+/-- `(1.0f - blending) * a1 + blending * a2`, every operation rounded once -/
+def blendEntry (b a1 a2 : Rat) : Rat := f32 (f32 (f32 (1 - b) * a1) + f32 (b * a2))
+
+/-- `blendPlacement(v1, v2, blending)`; a `v2` shorter than `v1` (asserted against in C++) reads 0 -/
+def blendPlacement (b : Rat) (v1 v2 : List Rat) : List Rat :=
+  if b = 0 then v1
+  else if b = 1 then v2
+  else (List.range v1.length).map fun i => blendEntry b (v1.getD i 0) (v2.getD i 0)
+
+/-- `params_.global.exportBlending`, `xPlacementLB_`, `xPlacementUB_`, `yPlacementLB_`, `yPlacementUB_` -/
+structure GlobalVectors where
+  w : Rat
+  xLB : List Rat
+  xUB : List Rat
+  yLB : List Rat
+  yUB : List Rat
+deriving Repr, Inhabited
+
+/-- `GlobalPlacer::exportPlacement(Circuit &circuit) const` -/
+def exportGlobalBlend (c : Circuit) (G : GlobalVectors) : Circuit :=
+  exportGlobal c (blendPlacement G.w G.xLB G.xUB) (blendPlacement G.w G.yLB G.yUB)
+
+/-- `GlobalPlacer::callback(step, xplace, yplace)` as far as the circuit is concerned (the user's
+callback itself is user code) -/
+def globalCallback (hasCallback : Bool) (c : Circuit) (xs ys : List Rat) : Circuit :=
+  if hasCallback then exportGlobal c xs ys else c
+
 /-! ### `Legalizer::exportPlacement(Circuit &circuit)`
 
 ```
@@ -127,6 +200,10 @@ def detailedStep (D : DetVectors) (c : Circuit) (i : Nat) : Circuit :=
 def exportDetailed (c : Circuit) (D : DetVectors) : Circuit :=
   (List.range D.n).foldl (detailedStep D) c
 
+/-- `DetailedPlacer::callback()`: `if (!callback_.has_value()) return; exportPlacement(circuit_); …` -/
+def detailedCallback (hasCallback : Bool) (c : Circuit) (D : DetVectors) : Circuit :=
+  if hasCallback then exportDetailed c D else c
+
 /-! ### Stages as sequences of exports
 
 `writes_table_closed` (Properties/C03, over the table regenerated from the source) shows that
@@ -138,16 +215,19 @@ export, whose partial write is part of `exportLegal`). -/
 
 inductive Write where
   | global (xs ys : List Rat)
+  | globalBlend (G : GlobalVectors)
   | legal (L : LegVectors)
   | detailed (D : DetVectors)
 
 def Write.apply : Write → Circuit → Circuit
   | .global xs ys, c => exportGlobal c xs ys
+  | .globalBlend G, c => exportGlobalBlend c G
   | .legal L, c => (exportLegal c L).2
   | .detailed D, c => exportDetailed c D
 
 def Write.isGlobal : Write → Bool
   | .global _ _ => true
+  | .globalBlend _ => true
   | _ => false
 
 def runWrites (ws : List Write) (c : Circuit) : Circuit := ws.foldl (fun c w => w.apply c) c
@@ -159,6 +239,32 @@ deriving Repr, DecidableEq
 
 /-- a placement stage (or a composition of stages): the writes it performed and how it ended -/
 def runStage (ws : List Write) (o : Outcome) (c : Circuit) : Outcome × Circuit := (o, runWrites ws c)
+
+/-! ### The stage bodies and the wrappers of `Circuit`
+
+`GlobalPlacer::place`: construct, `run()` (which calls `callback(step, x, y)` once per exposed
+placement — LB after every solve, UB after every rough legalization and at penalty updates), then
+`exportPlacement(circuit)`.  `DetailedPlacer::place`: `legalize` (one legalizer export, then the
+user callback), construct, `run()` (one `callback()` per optimisation pass), `exportPlacement`. -/
+
+/-- what `GlobalPlacer::place` does to the circuit when it returns -/
+def placeGlobalBody (hasCallback : Bool) (exposed : List (List Rat × List Rat)) (G : GlobalVectors) (c : Circuit) : Circuit :=
+  exportGlobalBlend (exposed.foldl (fun c p => globalCallback hasCallback c p.1 p.2) c) G
+
+/-- what `DetailedPlacer::place` does to the circuit when it returns (the legalizer's export did not throw) -/
+def placeDetailedBody (hasCallback : Bool) (L : LegVectors) (exposed : List DetVectors) (D : DetVectors) (c : Circuit) : Circuit :=
+  exportDetailed (exposed.foldl (detailedCallback hasCallback) (exportLegal c L).2) D
+
+/-- a `Circuit` together with its `isInUse_` flag -/
+structure Guarded where
+  inUse : Bool
+  c : Circuit
+deriving Repr, Inhabited
+
+/-- `InUseGuard guard(isInUse_); <body>(*this, …);` — the three wrappers of src/coloquinte.cpp: the
+constructor sets the flag, the destructor clears it when the scope is left, by return or by exception -/
+def withInUseGuard (body : Circuit → Outcome × Circuit) (s : Guarded) : Outcome × Guarded :=
+  ((body ({ s with inUse := true } : Guarded).c).1, { inUse := false, c := (body ({ s with inUse := true } : Guarded).c).2 })
 
 /-! ### The frame relation -/
 
